@@ -47,18 +47,39 @@ class _Hang(BaseException):
     pass
 
 
+class _Stalled(BaseException):
+    pass
+
+
+WALL_BACKSTOP = 3600      # seconds of wall-clock after which a guarded block is given up as a MACHINERY error
+
+
 @contextlib.contextmanager
-def _guard(seconds):
-    """Watchdog for one execution of the real sampler (a wrong stopping rule must not hang the check)."""
+def _guard(cpu_seconds):
+    """Watchdog for one execution of the real sampler (a wrong stopping rule must not hang the check).
+    The budget is CPU time of this process (ITIMER_VIRTUAL), not wall-clock: the verdict `the transition does not
+    terminate` must not depend on the load of the machine.  A generous wall-clock backstop only ever produces a
+    machinery error (exit 2), never a mismatch."""
+    from cuqiverif.core import MachineryError
+
     def h(*a):
         raise _Hang()
-    old = signal.signal(signal.SIGALRM, h)
-    signal.alarm(seconds)
+
+    def hw(*a):
+        raise _Stalled()
+    old_v = signal.signal(signal.SIGVTALRM, h)
+    old_a = signal.signal(signal.SIGALRM, hw)
+    signal.setitimer(signal.ITIMER_VIRTUAL, cpu_seconds)
+    signal.alarm(WALL_BACKSTOP)
     try:
         yield
+    except _Stalled:
+        raise MachineryError("a guarded execution of the real sampler made no progress for %d s of wall-clock" % WALL_BACKSTOP)
     finally:
+        signal.setitimer(signal.ITIMER_VIRTUAL, 0)
         signal.alarm(0)
-        signal.signal(signal.SIGALRM, old)
+        signal.signal(signal.SIGVTALRM, old_v)
+        signal.signal(signal.SIGALRM, old_a)
 
 
 def _okey(orb):
@@ -186,11 +207,15 @@ def _replay_one(ctx, impl, case, orbit, dirmap, count=True):
     key = (impl, _okey(case["orb"]), case["md"], case["ed"], tuple((d["k"], d["cls"]) for d in case["draws"]))
     ctx.case(key, nontrivial=len(case["leaves"]) > 1, facet=impl)
     try:
-        with _guard(20), zoo.quiet():
+        with _guard(30), zoo.quiet():
             out = fn(case, orbit, dirmap)
         mm = out.mismatch
+        if not mm and out.obs.get("draws"):
+            d = DRAW_OBS.setdefault(impl, {"behaviours": 0, "example": None})
+            d["behaviours"] += 1
+            d["example"] = d["example"] or dict(out.obs["draws"], md=case["md"], draws=[q["k"] + ":" + q["cls"] for q in case["draws"]])
     except _Hang:
-        mm = ("hang", "the transition did not terminate within 20 s", None, None)
+        mm = ("hang", "the transition did not terminate within 30 s of CPU time", None, None)
     if mm:
         clause = mm[0]
         if clause == "nonfinite" and isinstance(mm[3], dict):
@@ -203,11 +228,31 @@ def _replay_one(ctx, impl, case, orbit, dirmap, count=True):
     return True
 
 
-def _dirmaps(orbits):
+# behaviours that conformed in everything compared but made a different NUMBER of draws than the specification's action
+# sequence (neither required nor forbidden by the property): reported as an observation
+DRAW_OBS = {}
+
+
+def _dirmaps(ctx, orbits):
+    """uniform values that steer the direction of a doubling; also the check that the direction switches at 1/2"""
     from cuqiverif import nuts_real as NR, zoo
+    from cuqiverif.core import MachineryError
     o = next((o for o in orbits.values() if o["eps"] == [1, 2]), None) or next(iter(orbits.values()))
-    with zoo.quiet(), _guard(120):
-        return {impl: NR.calibrate_direction(impl, o) for impl in ("experimental", "legacy")}
+    out = {}
+    try:
+        with zoo.quiet(), _guard(300):
+            for impl in ("experimental", "legacy"):
+                out[impl], fair = NR.calibrate_direction(impl, o)
+                ctx.case(("direction", impl))
+                if not fair:
+                    ctx.mismatch("%s/direction/not_at_one_half" % impl, {"kind": "direction", "impl": impl, "orbit": o},
+                                 "the direction of a doubling does not switch at the uniform value 1/2: the two directions are "
+                                 "not chosen with probability 1/2 each (the kernel rows / double stochasticity assume 1/2)",
+                                 expected="opposite directions for u = 0.5(1 -/+ 1e-6)",
+                                 observed={"u=%.7f" % u: NR.direction_for(impl, o, u) for u in (NR.HALF_LO, NR.HALF_HI, 0.25, 0.75)})
+    except _Hang:
+        raise MachineryError("direction calibration did not terminate within 300 s of CPU time")
+    return out
 
 
 # ----------------------------------------------------------------------------------------------------------------
@@ -270,11 +315,16 @@ def record_runs(ctx):
         for i, (kind, label, make, plan) in enumerate(plans):
             for rep in range(2 if big else 1):
                 np.random.seed(seed + 17 * i + 1000 * rep)
-                with zoo.quiet(), _guard(600):
-                    if kind == "exp":
-                        traces.append(NR.record_experimental(make, plan, {"label": label, "seed": seed + 17 * i + 1000 * rep}))
-                    else:
-                        traces.append(NR.record_legacy(make, plan[0], plan[1], {"label": label, "seed": seed + 17 * i + 1000 * rep}))
+                try:
+                    with zoo.quiet(), _guard(1200):
+                        if kind == "exp":
+                            traces.append(NR.record_experimental(make, plan, {"label": label, "seed": seed + 17 * i + 1000 * rep}))
+                        else:
+                            traces.append(NR.record_legacy(make, plan[0], plan[1], {"label": label, "seed": seed + 17 * i + 1000 * rep}))
+                except _Hang:
+                    ctx.mismatch("trace/%s/hang/%s" % ("experimental" if kind == "exp" else "legacy", label),
+                                 {"kind": "trace", "meta": {"label": label, "seed": seed + 17 * i + 1000 * rep}},
+                                 "a real chain (%s) did not finish within 1200 s of CPU time" % label)
     finally:
         np.random.set_state(rs)
     return traces
@@ -398,7 +448,7 @@ def run(ctx):
         for impl in ("experimental", "legacy"):
             for eps in (1, 1.0, 0.5, 0.25):
                 step_ok[(impl, float(eps))] = check_step_size(ctx, impl, eps) and step_ok.get((impl, float(eps)), True)
-        dirmap = _dirmaps(orbits)
+        dirmap = _dirmaps(ctx, orbits)
         todo = [(c, orbits) for c in nuts] + [(c, sim_orbits) for c in sim]
         skipped = 0
         for impl in ("experimental", "legacy"):
@@ -411,6 +461,8 @@ def run(ctx):
                 _replay_one(ctx, impl, c, o, dirmap[impl])
         ctx.observe("replay", {"behaviours": len(todo), "skipped_because_step_size_not_honoured": skipped,
                                "direction_uniforms": {k: {str(a): b for a, b in v.items()} for k, v in dirmap.items()}})
+        if DRAW_OBS:
+            ctx.observe("conforming_behaviours_with_other_number_of_draws", DRAW_OBS)
         deep = max(nuts, key=lambda c: (len(c["draws"]), c["acc"]))
         ctx.sample({"behaviour": {k: deep[k] for k in ("orb", "md", "ed", "draws", "leaves", "subs", "cur", "acc", "ntree", "al", "na")},
                     "orbit": {k: orbits[_okey(deep["orb"])][k] for k in ("eps", "x", "r", "g", "lp")}})
@@ -447,6 +499,9 @@ def replay(ctx, case):
     if kind == "trace":
         trace_facet(ctx)
         return
+    if kind == "direction":
+        _dirmaps(ctx, {_okey(case["orbit"]["orb"]): case["orbit"]})
+        return
     orbit = case["orbit"]
-    dirmap = _dirmaps({_okey(orbit["orb"]): orbit})
+    dirmap = _dirmaps(ctx, {_okey(orbit["orb"]): orbit})
     _replay_one(ctx, case["impl"], case, orbit, dirmap[case["impl"]])
